@@ -18,7 +18,8 @@ Conventions
   denomination starts with `cw20:`.
 * The voucher denomination of an incoming packet is pre-split at the first two `/`
   (`splitn(3, '/')`): `none` = fewer than three parts.
-* JSON decoding is not modelled: undecodable packet data / acknowledgements / hook messages are `none`.
+* JSON decoding is not modelled here: undecodable packet data / acknowledgements / hook messages are `none`.
+  (`Model/Ics20Wire.lean` computes these arguments from the bytes on the wire with `Base/Json.lean`.)
 * `World` adds the runtime: bank and cw20 balances, dispatch of the (single) payout / refund
   sub-message with `reply_on_error` semantics as implemented by wasmd / cw-multi-test.
 -/
